@@ -669,8 +669,16 @@ func run(env *drive.Env) error {
 			first = false
 		}
 		if beh.Kind == "vectors" {
-			runVectors(env)
-			runStateProofs(env)
+			for name, f := range map[string]func(*drive.Env){"Vector": runVectors, "StateProof": runStateProofs} {
+				func() {
+					defer func() {
+						if r := recover(); r != nil {
+							env.Emit(map[string]interface{}{"ev": name, "panic": fmt.Sprint(r)})
+						}
+					}()
+					f(env)
+				}()
+			}
 			beh = Beh{}
 			continue
 		}
